@@ -63,7 +63,8 @@ class KnownFindings:
 
 
 def write_replay(prop: str, ob: Ob) -> str:
-    d = os.path.join(EVIDENCE_DIR, 'replay')
+    import sys as _sys
+    d = os.path.join(_sys.modules[__name__].EVIDENCE_DIR, 'replay')
     os.makedirs(d, exist_ok=True)
     dig = hashlib.sha1(ob.ident().encode()).hexdigest()[:12]
     path = os.path.join(d, f"{prop}-{dig}.json")
@@ -76,7 +77,9 @@ def write_replay(prop: str, ob: Ob) -> str:
 def write_evidence(prop: str, tier: str, level: str, obs: List[Ob], wall: float, explanation: str,
                    assumptions: List[str], n_viol: int, extra_cov: Optional[dict] = None,
                    seed: int = 0) -> str:
-    os.makedirs(EVIDENCE_DIR, exist_ok=True)
+    import sys as _sys
+    ev_dir = _sys.modules[__name__].EVIDENCE_DIR
+    os.makedirs(ev_dir, exist_ok=True)
     decided = [o for o in obs if o.status in ('ok', 'violation')]
     constructs = {o.construct or o.where for o in decided}
     samples = []
@@ -121,7 +124,7 @@ def write_evidence(prop: str, tier: str, level: str, obs: List[Ob], wall: float,
         'wall_s': round(wall, 3),
         'violations': n_viol,
     }
-    path = os.path.join(EVIDENCE_DIR, f"{prop}.json")
+    path = os.path.join(ev_dir, f"{prop}.json")
     tmp = path + '.tmp'
     with open(tmp, 'w') as f:
         json.dump(ev, f, indent=1, default=str)
